@@ -9,7 +9,7 @@
    ChainMode: publishes are restricted to  n_i -> immutable | /ipns/n_{i+1}[/rest] | /ipns/n_1[/rest]
               so that long chains and cycles arise often (chains up to |Names| hops).          *)
 EXTENDS Namesys
-CONSTANTS D, E, ChainMode
+CONSTANTS D, E, ChainMode, Prefix
 VARIABLE hist
 gvars == <<vars, hist>>
 
@@ -42,6 +42,33 @@ Flush == /\ ~Busy /\ Len(hist) = E
          /\ hist' = <<>> /\ routing' = [n \in Names |-> NoRec] /\ dsrec' = [n \in Names |-> NoRec]
          /\ cache' = <<>> /\ now' = 0 /\ csize' \in CacheSizes /\ maxttl' \in MaxTTLs
          /\ rs' = Idle /\ last' = [op |-> "Init"]
-GNextSim == IF ~Busy /\ Len(hist) = E THEN Flush ELSE GNext
+\* -simulate: TLC picks uniformly among successor STATES, which would drown Tick/Restart in the
+\* thousands of Publish/Resolve parameterisations; so the call kind and its arguments are drawn
+\* explicitly (RandomElement), explicit sequence numbers around the current one.
+Pick(S) == {RandomElement(S)}
+\* the first Prefix calls of a simulated behaviour build a chain n1 -> n2 -> ... (mostly to the next name)
+GOpSim ==
+  /\ ~Busy /\ Len(hist) < D
+  /\ LET k == RandomElement(1..20) IN
+     IF Len(hist) < Prefix /\ Len(hist) < Cardinality(Names) THEN
+        LET n == NameOrder[Len(hist) + 1]
+            nx == {v \in ValsFor(n) : v.ns = "ipns" /\ v.root = NextName(n)}
+        IN \E t \in Pick(TTLs) : \E v \in Pick(IF k <= 16 /\ nx # {} THEN nx ELSE ValsFor(n)) :
+             /\ Publish(n, v, t, -1)
+             /\ hist' = Append(hist, [op |-> "Publish", n |-> n, v |-> v, ttl |-> t, sq |-> -1])
+     ELSE IF k <= 8 THEN
+        \E n \in Pick(Names), t \in Pick(TTLs) : \E v \in Pick(ValsFor(n)) :
+        \E sq \in (IF RandomElement(1..3) = 1
+                    THEN Pick({x \in SeqOpts : x >= 0 /\ x >= Prev(n).seq - 1 /\ x <= Prev(n).seq + 2} \cup {0})
+                    ELSE {-1}) :
+          /\ Publish(n, v, t, sq)
+          /\ hist' = Append(hist, [op |-> "Publish", n |-> n, v |-> v, ttl |-> t, sq |-> sq])
+     ELSE IF k <= 17 THEN
+        \E q \in Pick(Req) : RStart(q) /\ hist' = Append(hist, [op |-> "Resolve", q |-> q])
+     ELSE IF k <= 19 THEN
+        IF now < MaxNow THEN Tick /\ hist' = Append(hist, [op |-> "Tick"])
+        ELSE \E q \in Pick(Req) : RStart(q) /\ hist' = Append(hist, [op |-> "Resolve", q |-> q])
+     ELSE Restart /\ hist' = Append(hist, [op |-> "Restart"])
+GNextSim == IF ~Busy /\ Len(hist) = E THEN Flush ELSE (GInternal \/ GOpSim)
 GSpecSim == GInit /\ [][GNextSim]_gvars
 =============================================================================
